@@ -159,7 +159,11 @@ def inject(scratch, units):
 
 
 def _is_clause(desc):
-    return re.match(r'^"?C\d\d/', desc or "") is not None
+    return re.match(r'^"?C\d\d(,C\d\d)*/', desc or "") is not None
+
+
+def clause_props(cid):
+    return cid.split("/")[0].split(",")
 
 
 def _clause_id(desc):
